@@ -168,7 +168,20 @@ func (c *VCtx) sharedHavoc(st *State, before *State) {
 		case "once":
 			c.fact(T(SBool, fmt.Sprintf("(forall ((k %s)) (! (=> (not (= (select %s k) %s)) (= (select %s k) (select %s k))) :pattern ((select %s k))))", ks, old.S, g.zero, nw.S, old.S, nw.S)))
 		}
-		st.heaps[g.heap] = nw
+		// nobody else knows the cells that are still local to this call
+		cur := nw
+		if ks == SRef {
+			var locals []string
+			for t := range c.localAtomics {
+				locals = append(locals, t)
+			}
+			sort.Strings(locals)
+			for _, t := range locals {
+				tt := T(SRef, t)
+				cur = Store(cur, tt, Select(old, tt))
+			}
+		}
+		st.heaps[g.heap] = c.name("h", cur)
 	}
 	// outside critical sections the guarded state of all monitors of the relevant packages may have changed
 	// (only global invariants can talk about guarded state outside a critical section)
